@@ -54,12 +54,13 @@ def t_step(two_symbols):
             del S.reads[:]
 
         def end(interp, fr, i):
-            reads = list(S.reads)
             events = list(S.events)
+            for e in events:
+                if e[0] == 'generate':
+                    sim.force_content(h, e[1][1])      # data flow into the aggregated candle
+            reads = list(S.reads)
             first = S.inputs[syms[0]]
-            goal = True
-            for s, k in reads:
-                goal = ops.land(goal, ops.compare('<=', k, i))
+            goal = sim.reads_goal(reads, lambda k: ops.compare('<=', k, i))
             h.prove(goal, 'step.every-input-row-read-is-at-or-before-the-current-minute', {'reads': len(reads)})
             for e in events:
                 if e[0] == 'generate':
@@ -110,10 +111,12 @@ def t_fast(step):
         h.prove(out.ok, 'fast.no-exception', {'raised': out.exc})
         if not out.ok:
             return
+        # data flow: the content of every window handed on may depend on rows of the chunk or earlier ones only
+        for e in list(S.events):
+            if e[0] in ('generate', 'match_chunk'):
+                sim.force_content(h, e[1][1] if e[0] == 'generate' else e[1][0])
         reads = list(S.reads)
-        goal = True
-        for s, k in reads:
-            goal = ops.land(goal, ops.compare('<', k, ops.arith('+', i, step)))
+        goal = sim.reads_goal(reads, lambda k: ops.compare('<', k, ops.arith('+', i, step)))
         h.prove(goal, 'fast.every-input-row-read-lies-inside-or-before-the-chunk', {'reads': len(reads)})
         for e in list(S.events):
             if e[0] in ('generate', 'match_chunk'):
